@@ -138,7 +138,7 @@ def _symbolic_comp(ex, st, e, kind, g, it):
         arrs = [z3.Lambda([i], c) for c in comps]
         r = ty.SeqV(t, arrs, seq.len)
     else:
-        r = filtered(ex, st, i, seq.len, cond, t, comps)
+        r = filtered(ex, st, i, seq.len, cond, t, comps, src_arrs=seq.arrs)
     if kind == "list":
         return [Out("val", r, st)]
     if kind == "gen":
@@ -148,7 +148,7 @@ def _symbolic_comp(ex, st, e, kind, g, it):
     raise _U("comprehension kind", e)
 
 
-def filtered(ex, st, i, n, cond, t, comps):
+def filtered(ex, st, i, n, cond, t, comps, src_arrs=()):
     """Order-preserving subsequence {body(i) | 0<=i<n, cond(i)} with explicit index maps."""
     m = z3.Int(ty.fresh_name("flen"))
     idx = z3.Function(ty.fresh_name("fidx"), z3.IntSort(), z3.IntSort())     # position in result -> source index
@@ -161,7 +161,8 @@ def filtered(ex, st, i, n, cond, t, comps):
                         patterns=[idx(j)]))
     st.assume(z3.ForAll([j, k], z3.Implies(z3.And(j >= 0, j < k, k < m), idx(j) < idx(k)), patterns=[z3.MultiPattern(idx(j), idx(k))]))
     st.assume(z3.ForAll([k], z3.Implies(z3.And(k >= 0, k < n, sub(cond, k)),
-                                        z3.And(pos(k) >= 0, pos(k) < m, idx(pos(k)) == k)), patterns=[pos(k)]))
+                                        z3.And(pos(k) >= 0, pos(k) < m, idx(pos(k)) == k)),
+                        patterns=[pos(k)] + [z3.Select(a, k) for a in src_arrs if not (z3.is_quantifier(a) and a.is_lambda())]))
     arrs = [z3.Lambda([j], sub(c, idx(j))) for c in comps]
     r = ty.SeqV(t, arrs, m)
     st.ghost.setdefault("__filters__", PyList()).items.append((r, idx, pos))
